@@ -938,3 +938,92 @@ func TestReplay_SameObjectUnderTwoOutputsIsClosedOnce(t *testing.T) {
 		}
 	}
 }
+
+type rbOwnI interface{ Name() string }
+type rbOwnRes struct{ closes int }
+
+func (r *rbOwnRes) Close() error { r.closes++; return nil }
+
+type rbOwnOther struct{}
+type rbOwnOut struct {
+	Out
+	Res     *rbOwnRes
+	Closer  Disposable
+	Missing *rbOwnOther // left nil
+}
+
+// scope.createInstance#assert[rejected_outputs_stay_owned]: a multi-return constructor returns (&Res{}, nil). The nil output is rejected
+// (see TestReplay_NilOutputOfMultiReturnConstructor), but the *Res the container has just created must still be closed exactly once:
+// the first version of that repair returned before anything was stored OR tracked, so the instance was never closed.
+// scope.trackUnstored / the removed-registration branch: one object under two outputs is tracked once on these paths as well.
+func TestReplay_OutputsOfARejectedOrUnstoredInvocationAreClosedOnce(t *testing.T) {
+	for _, lt := range []Lifetime{Singleton, Scoped, Transient} {
+		add := func(c Collection, ctor any) error {
+			switch lt {
+			case Singleton:
+				return c.AddSingleton(ctor)
+			case Scoped:
+				return c.AddScoped(ctor)
+			}
+			return c.AddTransient(ctor)
+		}
+		// (1) nil output next to a disposable one
+		var made []*rbOwnRes
+		c := NewCollection()
+		if err := add(c, func() (*rbOwnRes, rbOwnI) { r := &rbOwnRes{}; made = append(made, r); return r, nil }); err != nil {
+			t.Fatal(err)
+		}
+		p, err := c.Build()
+		if err == nil {
+			sc, _ := p.CreateScope(context.Background())
+			Resolve[*rbOwnRes](sc)
+			sc.Close()
+			p.Close()
+		}
+		for i, r := range made {
+			if r.closes != 1 {
+				t.Errorf("REPLAY-CONFIRMED scope.createInstance#assert[rejected_outputs_stay_owned]: %v: instance %d created by an invocation that was rejected for a nil output was closed %d times, want 1", lt, i, r.closes)
+			}
+		}
+		// (2) result object: one object under two fields, the requested third field nil
+		made = nil
+		c = NewCollection()
+		if err := add(c, func() rbOwnOut { r := &rbOwnRes{}; made = append(made, r); return rbOwnOut{Res: r, Closer: r} }); err != nil {
+			t.Fatal(err)
+		}
+		p, err = c.Build()
+		if err == nil {
+			sc, _ := p.CreateScope(context.Background())
+			Resolve[*rbOwnOther](sc)
+			sc.Close()
+			p.Close()
+		}
+		for i, r := range made {
+			if r.closes != 1 {
+				t.Errorf("REPLAY-CONFIRMED scope.trackUnstored#post[an_object_is_tracked_once_per_invocation]: %v: instance %d of an invocation whose requested field was nil was closed %d times, want 1", lt, i, r.closes)
+			}
+		}
+		// (3) one object under two outputs, one of the two registrations removed before Build
+		made = nil
+		c = NewCollection()
+		if err := add(c, func() (*rbOwnRes, Disposable) { r := &rbOwnRes{}; made = append(made, r); return r, r }); err != nil {
+			t.Fatal(err)
+		}
+		c.Remove(reflect.TypeOf((*Disposable)(nil)).Elem())
+		p, err = c.Build()
+		if err != nil {
+			t.Fatal(err)
+		}
+		sc, _ := p.CreateScope(context.Background())
+		if _, err := Resolve[*rbOwnRes](sc); err != nil {
+			t.Fatal(err)
+		}
+		sc.Close()
+		p.Close()
+		for i, r := range made {
+			if r.closes != 1 {
+				t.Errorf("REPLAY-CONFIRMED scope.trackOutput#assert[an_object_is_tracked_once_per_invocation]: %v: instance %d returned under a kept and a removed output was closed %d times, want 1", lt, i, r.closes)
+			}
+		}
+	}
+}
